@@ -813,6 +813,12 @@ Proof.
         -- norm He. apply frame_idle with (th := th); auto; rewrite ?Epc; reflexivity.
     + (* OCursorDone *)
       destruct (t_vlock th); norm He; apply frame_idle with (th := th); auto; rewrite ?Epc; reflexivity.
+    + (* OVisitLock *)
+      destruct (t_vlock th).
+      * norm He. apply frame_idle with (th := th); auto; rewrite ?Epc; reflexivity.
+      * destruct (lock_held (os_vlock st) (t_subproc th)).
+        -- destruct all; [discriminate|]. norm He. apply frame_idle with (th := th); auto; rewrite ?Epc; reflexivity.
+        -- norm He. apply frame_idle with (th := th); auto; rewrite ?Epc; reflexivity.
   - (* Ab1 *)
     destruct (nth_error (segs st) s) as [g|] eqn:Eg; [|discriminate]. norm He. apply case_Ab1 with (th := th) (g := g); auto.
   - (* Ab2 *)
